@@ -72,10 +72,15 @@ func hookPermBN(recv any, args []any) []any {
 }
 
 // walkVerifier executes the real Define of the chosen wrapper on the symbolic API.
-func walkVerifier(in *instance, o walkOpts) *walkResult {
+func walkVerifier(in *instance, o walkOpts) *walkResult { return walkVerifierWith(in, o, nil) }
+
+func walkVerifierWith(in *instance, o walkOpts, prep func(e *sym.Ctx)) *walkResult {
 	setBitDecompEnv(o.Env)
 	api := newAPI(o.Cap)
 	e := cur
+	if prep != nil {
+		prep(e)
+	}
 	e.ShadowOn = o.Pin
 	res := &walkResult{In: in, Opts: o, E: e}
 	hooks := map[string]hookFn{}
